@@ -96,6 +96,26 @@ def unit_ops(item):
                         p.outcome(f"ops|{len(shp)}|{rank}|{as_td}")
                     except Exception as e:  # noqa: BLE001
                         p.violation(sig("batchify", cfg, f"crash:{type(e).__name__}", f"B={B}"), rec, f"batchify/unbatchify crashed for B={B}, shape {arg}, rank {rank}, tensordict={as_td}: {type(e).__name__}: {str(e)[:80]}")
+    # nested replication as the library uses it (SymNCO / POMO evaluation): a batch is first replicated A-fold (augmentation
+    # copies, row a*B+b), the result S-fold (multi-start); the outputs are regrouped with unbatchify(x, (A, S)).  Every
+    # entry [b, a, s] of the regrouped tensor must be the row of instance b, copy a, start s.
+    for B in range(1, 4):
+        for A in range(1, 4):
+            for S in range(1, 4):
+                base = torch.arange(B).float()
+                y1 = batchify(base, A)
+                y1 = y1 + 100.0 * torch.arange(B * A).div(B, rounding_mode="floor")  # tag the augmentation copy
+                y2 = batchify(y1, S)
+                y2 = y2 + 10000.0 * torch.arange(B * A * S).div(B * A, rounding_mode="floor")  # tag the start
+                p.add(states=1, evaluations=1, transitions=3, distinct_count=1 if (A > 1 and S > 1) else 0)
+                rec = dict(kind="ops", B=B, shape=[A, S], rank=1, tensordict=False, nested=True)
+                try:
+                    z = unbatchify(y2, (A, S))
+                    want = torch.tensor([[[b + 100.0 * a + 10000.0 * s_ for s_ in range(S)] for a in range(A)] for b in range(B)])
+                    if tuple(z.shape) != (B, A, S) or not torch.equal(z, want):
+                        p.violation(sig("unbatchify", f"shape={[A, S]}", "nested_layout", f"B={B}"), rec, f"unbatchify(x, ({A}, {S})) of a batch replicated {A}-fold and then {S}-fold (B={B}): entry [b, a, s] is not (instance b, copy a, start s): got {z.tolist()}, expected {want.tolist()}")
+                except Exception as e:  # noqa: BLE001
+                    p.violation(sig("unbatchify", f"shape={[A, S]}", f"crash:{type(e).__name__}", f"B={B}"), rec, f"unbatchify(x, ({A}, {S})) crashed: {type(e).__name__}: {str(e)[:80]}")
     p.sample(dict(part="ops", B=3, shape=[2, 3], rank=2), cap=1)
     return p
 
@@ -136,7 +156,10 @@ def unit_starts(item):
                 # candidate start set: the depot / wait / dummy action 0 is never a start node in environments that have one
                 has_zero_special = env_name not in ("tsp", "atsp", "flp", "mcp")
                 cand = [a for a in range(n_act) if not (has_zero_special and a == 0)]
-                for k in sorted({2, 3, min(nstart, n_act), min(nstart, n_act) + 1} if tier == "quick" else set(range(2, min(nstart, n_act) + 2))):
+                ks = {2, 3, min(nstart, n_act), min(nstart, n_act) + 1} if tier == "quick" else set(range(2, min(nstart, n_act) + 2))
+                if env_name == "pdp":
+                    ks |= {n_act - 1, n_act}  # as many starts as customers / nodes (what evaluate_policy uses)
+                for k in sorted(ks):
                     if k < 2 or k > 8:  # num_starts == 1 never reaches select_start_nodes (multistart is off then)
                         continue
 
@@ -174,10 +197,15 @@ def unit_starts(item):
                         for b in range(B):
                             mine = [sel[i * B + b] for i in range(k)]
                             feas = [a for a in cand if mask[b, a]]
+                            bad = [a for a in mine if not (0 <= a < n_act and mask[b, a])]
                             if len(feas) < k:
                                 p.add(fewer_feasible_than_k=1)
-                                continue  # the property only speaks about instances with at least k feasible starts
-                            bad = [a for a in mine if not (0 <= a < n_act and mask[b, a])]
+                                # the property only promises distinct starts with at least k feasible ones.  PDP documents more:
+                                # "only pickups can be selected" for ANY number of starts (the rule wraps around), and
+                                # evaluate_policy asks for num_loc starts there - so feasibility is still judged for PDP
+                                if env_name == "pdp" and feas and bad:
+                                    p.violation(sig(env_name, skey.partition(":")[2], "infeasible_start", "k>feasible_starts"), rec, f"{skey}: instance {rows[b][0]}: asked for k={k} starts (pickups are {feas}) it is forced to start at {bad}, not a pickup (starts {mine})")
+                                continue
                             if bad:
                                 p.violation(sig(env_name, skey.partition(":")[2], "infeasible_start", "k<=feasible_starts"), rec, f"{skey}: instance {rows[b][0]} has {len(feas)} feasible first moves {feas} but is forced to start at {bad} (k={k}, starts {mine}, batch {[r[0] for r in rows]})")
                             elif len(set(mine)) != len(mine):
